@@ -61,7 +61,7 @@ type Engine struct {
 // store.
 func CreateEngine(opts Options) (*Engine, error) {
 	// set default interval
-	if opts.ExpireInterval == 0 {
+	if opts.ExpireInterval <= 0 {
 		opts.ExpireInterval = 60 * time.Second
 	}
 
